@@ -5,6 +5,14 @@
 #include <netinet/in.h>
 #include <sys/socket.h>
 
+// every close-like call is guarded: it must return within 30 s of virtual time
+#define CLOSE_BOUND_NS 30000000000ull
+#define BOUNDED_CALL(var, call)                                                    \
+	do {                                                                       \
+		Bounded bounded_guard_("C10", "close_hang", CLOSE_BOUND_NS, "%s", #call); \
+		var = (call);                                                      \
+	} while (0)
+
 namespace {
 
 struct ProtoPair {
@@ -136,6 +144,36 @@ op_task(void *a)
 				nng_msg_free(nng_aio_get_msg(u.aio));
 			if (rv != 0 && o->kind == 5)
 				nng_msg_free(m);
+			break;
+		}
+		case 6: {
+			// blocking dial to an address that never answers
+			Bounded g("C10", "op_pending_forever", 120ull * 1000000000ull, "nng_dial to a black-holed address (closing=%d)",
+			    (int) w->closing);
+			rv = nng_dial(w->a, h_url(TR_TCP, 73).c_str(), NULL, 0);
+			if (rv == 0)
+				VIOL("dial_succeeded_to_black_hole", "nng_dial to a black-holed address returned success");
+			break;
+		}
+		case 7: {
+			// asynchronous dialer start to an address that never answers
+			nng_dialer dd;
+			rv = nng_dialer_create(&dd, w->a, h_url(TR_TCP, 73).c_str());
+			if (rv != 0)
+				break;
+			UAio u;
+			nng_aio_set_timeout(u.aio, NNG_DURATION_INFINITE);
+			u.arm("dialer_start_aio");
+			nng_dialer_start_aio(dd, 0, u.aio);
+			if (u.wait(120ull * 1000000000ull) == (nng_err) -1)
+				VIOL("op_pending_forever",
+				    "nng_dialer_start_aio to a black-holed address did not complete within 120 s (closing=%d closed=%d)",
+				    (int) w->closing, (int) w->closed_sock);
+			rv = u.result;
+			if (rv == 0)
+				VIOL("dial_succeeded_to_black_hole", "nng_dialer_start_aio to a black-holed address completed with success");
+			if (rv != NNG_ECLOSED)
+				nng_dialer_close(dd);
 			break;
 		}
 		}
@@ -271,7 +309,8 @@ close_run(Params *p)
 	    (int) have_hole, (int) have_l2);
 
 	// pending operations
-	int nops = (int) W(1, 4);
+	bool have_hole2 = false;
+	int  nops       = (int) W(1, 4);
 	for (int i = 0; i < nops; i++) {
 		OpTask *o = new OpTask();
 		o->w      = &w;
@@ -283,7 +322,15 @@ close_run(Params *p)
 		bool want_send = w.pp->a_send && (!w.pp->a_recv || W(0, 1) == 0);
 		bool use_ctx   = w.pp->a_ctx && W(0, 1) == 0;
 		bool use_aio   = !use_ctx && W(0, 2) == 0;
-		if (use_ctx) {
+		if (W(0, 7) == 0) {
+			// a pending dial instead of a message operation
+			o->kind = W(0, 1) ? 6 : 7;
+			if (!have_hole2) {
+				simnet_blackhole(0x7f000001u, (uint16_t) (5000 + 73), 1);
+				have_hole2 = true;
+			}
+			sim_probe("c10_pending_dial");
+		} else if (use_ctx) {
 			if (nng_ctx_open(&o->ctx, w.a) != 0) {
 				delete o;
 				continue;
@@ -311,7 +358,8 @@ close_run(Params *p)
 				vict = o;
 		if (vict != NULL) {
 			sim_event("close ctx of op %d", vict->idx);
-			int rv = nng_ctx_close(vict->ctx);
+			int rv;
+			BOUNDED_CALL(rv, nng_ctx_close(vict->ctx));
 			if (rv != 0)
 				VIOL("close_failed", "nng_ctx_close returned %d", rv);
 			// the op on that ctx must complete
@@ -328,7 +376,8 @@ close_run(Params *p)
 	} else if (target == 3) {
 		if (w.have_l) {
 			sim_event("close listener");
-			int rv = nng_listener_close(w.l);
+			int rv;
+			BOUNDED_CALL(rv, nng_listener_close(w.l));
 			if (rv != 0)
 				VIOL("close_failed", "nng_listener_close returned %d", rv);
 			expect_invalid(nng_listener_close(w.l), "nng_listener_close", "listener");
@@ -337,7 +386,8 @@ close_run(Params *p)
 			w.have_l = false;
 		} else if (w.have_d) {
 			sim_event("close dialer");
-			int rv = nng_dialer_close(w.d);
+			int rv;
+			BOUNDED_CALL(rv, nng_dialer_close(w.d));
 			if (rv != 0)
 				VIOL("close_failed", "nng_dialer_close returned %d", rv);
 			expect_invalid(nng_dialer_close(w.d), "nng_dialer_close", "dialer");
@@ -351,7 +401,9 @@ close_run(Params *p)
 			nng_pipe pp;
 			pp.id = w.pipes.back();
 			sim_event("close pipe %x", pp.id);
-			(void) nng_pipe_close(pp);
+			int prv0;
+			BOUNDED_CALL(prv0, nng_pipe_close(pp));
+			(void) prv0;
 			sim_stat("nontrivial", 1);
 		}
 	}
@@ -367,14 +419,17 @@ close_run(Params *p)
 	Closer c2 = { &w, -1, 0 };
 	auto   closer = [](void *a) {
         Closer *c = (Closer *) a;
-        c->rv     = nng_socket_close(c->w->a);
+        int rv2;
+        BOUNDED_CALL(rv2, nng_socket_close(c->w->a));
+        c->rv = rv2;
         c->done   = 1;
 	};
 	int ct = -1;
 	if (target == 5)
 		ct = sim_spawn("closer2", closer, &c2, 0);
 	sim_event("close socket A");
-	int rv = nng_socket_close(w.a);
+	int rv;
+	BOUNDED_CALL(rv, nng_socket_close(w.a));
 	w.closed_sock = 1;
 	uint64_t dt = sim_now_ns() - t0 - (sim_stall_total_ns() - s0);
 	if (rv != 0 && !(target == 5 && rv == NNG_ECLOSED))
@@ -448,7 +503,13 @@ close_run(Params *p)
 	sim_join_all();
 	if (have_hole)
 		simnet_blackhole(0x7f000001u, (uint16_t) (5000 + 71), 0);
-	MUST(nng_socket_close(w.b));
+	if (have_hole2)
+		simnet_blackhole(0x7f000001u, (uint16_t) (5000 + 73), 0);
+	{
+		int rvb;
+		BOUNDED_CALL(rvb, nng_socket_close(w.b));
+		MUST(rvb);
+	}
 	for (auto o : w.ops)
 		delete o;
 }
@@ -526,7 +587,8 @@ device_run(Params *p)
 	uint64_t t0 = sim_now_ns(), st0 = sim_stall_total_ns();
 	if (how != 2) {
 		// a socket that is part of a running device refuses to be closed
-		int crv = nng_socket_close(how == 0 ? s1 : s2);
+		int crv;
+		BOUNDED_CALL(crv, nng_socket_close(how == 0 ? s1 : s2));
 		if (crv == 0) {
 			sim_probe("c10_device_socket_closed");
 		} else {
@@ -546,7 +608,9 @@ device_run(Params *p)
 	(void) dt;
 	sim_stat("nontrivial", 1);
 	// the device closes its sockets when it ends; closing again must say so
-	int r1 = nng_socket_close(s1), r2 = nng_socket_close(s2);
+	int r1, r2;
+	BOUNDED_CALL(r1, nng_socket_close(s1));
+	BOUNDED_CALL(r2, nng_socket_close(s2));
 	if ((r1 != 0 && r1 != NNG_ECLOSED) || (r2 != 0 && r2 != NNG_ECLOSED))
 		VIOL("close_failed", "closing the device sockets returned %d / %d", r1, r2);
 	MUST(nng_socket_close(c1));
